@@ -631,7 +631,22 @@ def units():
             ('C04/_safecookie_authchallenge', unit_safecookie()),
             ('C04/compare_via_hash', unit_compare()),
             ('C04/_do_password_authentication', unit_password()),
-            ('C04/_bootstrap', unit_bootstrap())]
+            ('C04/_bootstrap', unit_bootstrap())] + _loss_units()
+
+
+def _loss_units():
+    """a connection lost in the middle of the handshake reaches the one errback because connectionLost fails the command in
+    flight, whatever the reason of the loss (contract shared with C03)"""
+    from props import C03
+    from contracts import control as KC
+    return [('C04/connectionLost@%s' % st, C03.unit_connection_lost(st)) for st in KC.FSM_STATES]
+
+
+def make_models_for(unit_name):
+    if '/connectionLost@' in unit_name:
+        from contracts import control as KC
+        return KC.ControlModels()
+    return make_models()
 
 
 # ==========================================================================================
